@@ -684,11 +684,26 @@ def _assigned_names(stmts):
                 if meth in MUTATORS or (meth in INPLACE_KW and inplace):
                     tgts = [n.value.func.value]
             for t in tgts:
-                for x in ast.walk(t):
-                    if isinstance(x, ast.Name) and x.id != "self" and x.id not in out:
-                        # only roots of the target expression
-                        out.append(x.id)
+                for r in _target_roots(t):
+                    if r != "self" and r not in out:
+                        out.append(r)
     return out
+
+
+def _target_roots(t):
+    """root names bound / mutated by an assignment target (x, x[i], x.a.b[i], (x, y))"""
+    if isinstance(t, ast.Name):
+        return [t.id]
+    if isinstance(t, (ast.Tuple, ast.List)):
+        out = []
+        for e in t.elts:
+            out += _target_roots(e)
+        return out
+    if isinstance(t, ast.Starred):
+        return _target_roots(t.value)
+    while isinstance(t, (ast.Subscript, ast.Attribute)):
+        t = t.value
+    return [t.id] if isinstance(t, ast.Name) else []
 
 
 def _assigned_self_attrs(stmts):
